@@ -13,6 +13,7 @@ import (
 	"math/big"
 
 	"verif/h/fw"
+	"verif/h/node"
 
 	"com.tuntun.rangers/node/src/common"
 	"com.tuntun.rangers/node/src/common/secp256k1"
@@ -21,7 +22,10 @@ import (
 	"com.tuntun.rangers/node/src/storage/rlp"
 )
 
-var carriedKey *ecdsa.PrivateKey
+var (
+	carriedKey    *ecdsa.PrivateKey
+	carriedBooted bool
+)
 
 func carriedSetup() {
 	d, _ := new(big.Int).SetString("4c0883a69102937d6231471b5dbb6204fe5129617082792ae468d01a3f362318", 16)
@@ -31,7 +35,15 @@ func carriedSetup() {
 	k.PublicKey.X, k.PublicKey.Y = c.ScalarBaseMult(d.Bytes())
 	_ = elliptic.P256
 	carriedKey = k
-	common.Init(0, "1.ini", "dev") // loggers + chain configuration: the executor's decoding consults fork predicates
+	if carriedBooted {
+		return
+	}
+	carriedBooted = true
+	// loggers, chain configuration (the executor's decoding consults fork predicates), services and a
+	// genesis chain in the worker's scratch directory (the EVM part executes blocks)
+	if err := node.Boot(node.ForksAllOn, true); err != nil {
+		panic(err)
+	}
 	common.SetBlockHeight(20)
 }
 
